@@ -349,7 +349,24 @@ def run(ctx):
                 continue
             full = r["dump_full"]
             d = lossless_diff(c["wire"], full)
-            if d:
+            py_named = [a for a, f in cls.model_fields.items() if f.alias and f.alias != a and a in c["wire"]]
+            if py_named:
+                # an unknown wire member that is spelled like the Python name of an aliased field: judged on losslessness
+                # alone, under its own mechanism (every other comparison below would only restate the same confusion)
+                ctx.count("python_named_member_cases")
+                if d:
+                    both = all(cls.model_fields[a].alias in c["wire"] for a in py_named)
+                    mech = ("python_named_member_next_to_aliased_member_lost" if both else "python_named_member_renamed_to_alias")
+                    if both and not backend.startswith("fallback"):
+                        mech += "_under_pydantic"
+                    ctx.violation(mech, f"{cls.__name__} ({backend}): wire object carries the unknown member(s) {py_named} "
+                                  f"({'next to' if both else 'without'} the aliased member): {d}", case)
+                ctx.record({"cls": c["cls"], "wire": c["wire"], "backend": backend}, shape=None, nontrivial=True,
+                           cls=f"{backend}:{cls.__name__}:py_named")
+                continue
+            if False:
+                pass
+            elif d:
                 declared = {(f.alias or a) for a, f in cls.model_fields.items()} | set(cls.model_fields)
                 top = d.lstrip(".").split(".")[0].split("[")[0].split(":")[0]
                 if "member lost" in d and top in r.get("dump_plain", {}) is False:
